@@ -10,7 +10,8 @@ M = "NetqasmVerif.Props.C12"
 THEOREMS = [(M, "NQ.C12." + n) for n in [
     "exactly_once", "exactly_once_count", "consumed_by_oldest_in_order", "consumed_by_head",
     "retired_iff_complete", "consume_effect", "keep_only_when_free", "unit_never_overwritten",
-    "wait_sound", "handlePending_quiescent", "scenario_nonvacuous", "measure_overtakes_deferred_keep"]]
+    "wait_sound", "handlePending_quiescent", "scenario_nonvacuous", "measure_overtakes_deferred_keep",
+    "rejected_issue_unchanged", "queued_requests_were_issued"]]
 MQ = "NetqasmVerif.Props.QlinkObligations"
 THEOREMS += [(MQ, "NQ.Qlink." + n) for n in ["response_conversion_copies_every_field", "basis_conversion_exact",
                                              "bell_state_verbatim"]]
@@ -46,6 +47,10 @@ TRUSTED = [
     "_wait_to_handle_epr_responses as no-op, _execute_command yielding before delegating)",
 ]
 ASSUMPTIONS = [
+    "faults at the environment boundary are modelled as the action `rejected`: a create_epr/recv_epr whose call "
+    "into the network stack (put, get_purpose_id) raised changes nothing (issuing is atomic with the stack's "
+    "acceptance); the raising subroutine stays registered, as in the code",
+    "executor instances share nothing: each executor of a process is an independent run of the model",
     "responses reach the controller natively or as qlink-interface 1.0 objects converted by the real "
     "response_from_qlink_1_0 (K and M; the executor converts neither R-type nor unknown objects); purpose ids "
     "depend on (remote node, socket): harness stack remote*1000+socket",
@@ -102,6 +107,34 @@ def _run_case(ctx, res, H, sc, toks, tag):
     return d, orc
 
 
+# once this many failing inputs are on record the remaining streams add nothing (and a broken executor may
+# make every further case slower and slower)
+MAX_FAILURES = 400
+
+
+def _run_two(ctx, res, H, scs, toks):
+    rps = H.replay_two(scs, toks)
+    res.evaluations += 1
+    res.count("two-executors")
+    inp = {"two_executors": [sc.desc() for sc in scs], "schedule": [[k, list(t)] for k, t in toks]}
+    for k, rp in enumerate(rps):
+        out = ctx.driver.call(H.model_request(rp.init_acts, rp.steps))
+        d = H.compare_with_model(out, rp.init_acts, rp.steps) if "obs" in out else {"model": out}
+        if d is not None:
+            res.disagreements.append({"stream": "epr.run(two executors, node %d)" % k, "input": inp,
+                                      "model": d.get("model", d), "code": d.get("code", d)})
+        viol = list(rp.oracle.violations)
+        raised = [st for st in rp.steps if "raised" in st]
+        if raised and not viol:
+            viol.append({"what": "executor %d raised %s in a well-formed scenario" % (k, raised[0]["raised"])})
+        if viol:
+            res.failures.append({"what": "executor %d of 2: %s" % (k, viol[0]["what"]), "kf": None,
+                                 "input": {**inp, "violations": json.loads(json.dumps(viol[:5], default=str))}})
+            break
+        if rp.oracle.consumed:
+            res.nontrivial.add(hashlib.sha1((json.dumps(inp, sort_keys=True)).encode()).hexdigest()[:20])
+
+
 def run(ctx):
     from harness import epr as H
     H.quiet()
@@ -109,24 +142,52 @@ def run(ctx):
     res.rule = ("a case = (scenario, schedule); non-trivial when at least one response was consumed by a "
                 "request; distinct by hash of (scenario programs + responses, schedule)")
     rng = ctx.rng
-    n_random = 40000 if ctx.thorough else 2500
+    # several executor instances in one process (two nodes), schedules interleaved: a response parked at
+    # one executor must never show up at, or be consumed by, the other
+    n_two = 1500 if ctx.thorough else 250
+    for i in range(n_two):
+        if len(res.failures) >= MAX_FAILURES:
+            break
+        scs = [H.gen_scenario(rng), H.gen_scenario(rng, mixed_roles=(i % 2 == 0))]
+        for r in scs[1].resps:
+            r.uid += 1000
+        toks = H.interleave(rng, H.random_schedule(scs[0], rng, early=rng.choice([0, 1, 2])),
+                            H.random_schedule(scs[1], rng, early=rng.choice([0, 1, 2])))
+        _run_two(ctx, res, H, scs, toks)
+    n_random = 25000 if ctx.thorough else 2000
     for i in range(n_random):
+        if len(res.failures) >= MAX_FAILURES:
+            break
         mal = rng.random() < 0.12
         sc = H.gen_scenario(rng, malformed=mal)
         toks = H.random_schedule(sc, rng)
         _run_case(ctx, res, H, sc, toks, "rnd")
     # create and receive roles mixed on ONE socket, responses arriving before their instruction ran
-    n_mixed = 8000 if ctx.thorough else 700
+    n_mixed = 5000 if ctx.thorough else 500
     for i in range(n_mixed):
+        if len(res.failures) >= MAX_FAILURES:
+            break
         sc = H.gen_scenario(rng, mixed_roles=True)
         toks = H.random_schedule(sc, rng, early=rng.choice([0, 1, 1, 2, 3]))
         _run_case(ctx, res, H, sc, toks, "mix")
         res.count("mixed-roles-one-socket")
+    # faults at the environment boundary: the network stack refuses a request (put raises) or does not
+    # know the socket (get_purpose_id raises) inside one subroutine; the others go on using the socket
+    n_fault = 3000 if ctx.thorough else 500
+    for i in range(n_fault):
+        if len(res.failures) >= MAX_FAILURES:
+            break
+        sc = H.gen_scenario(rng, faults=True)
+        toks = H.random_schedule(sc, rng, early=rng.choice([0, 0, 1]))
+        _run_case(ctx, res, H, sc, toks, "flt")
+        res.count("stack-fault:%s" % sc.fault)
     # exhaustive interleavings of small scenarios (one subroutine): every merge of the instruction
     # sequence with the per-queue response sequences; counted as complete when not cut by the cap
-    n_small = 45 if ctx.thorough else 6
-    cap = 2500 if ctx.thorough else 300
+    n_small = 36 if ctx.thorough else 6
+    cap = 2000 if ctx.thorough else 300
     for i in range(n_small):
+        if len(res.failures) >= MAX_FAILURES:
+            break
         sc = H.gen_scenario(rng, max_reqs=2, max_pairs=2 if i % 2 else 3, small=True, mixed_roles=(i % 3 == 0))
         k = 0
         for toks in H.exhaustive_schedules(sc, cap):
@@ -150,6 +211,15 @@ def replay(ctx, payload):
     if inp is None:
         print("replay file names no input:", json.dumps(payload.get("no_longer_checks", [])[:3])[:600])
         return 1
+    if "two_executors" in inp:
+        scs = [H.Scenario.from_desc(d) for d in inp["two_executors"]]
+        res = Result()
+        _run_two(ctx, res, H, scs, [(k, tuple(t)) for k, t in inp["schedule"]])
+        for f in res.failures:
+            print("FAIL:", f["what"])
+        for d in res.disagreements:
+            print("MODEL!=CODE:", d["stream"], str(d["code"])[:300])
+        return 1 if (res.failures or res.disagreements) else 0
     sc = H.Scenario.from_desc(inp["scenario"])
     toks = [tuple(t) for t in inp["schedule"]]
     res = Result()
